@@ -4,6 +4,7 @@ import (
 	"fmt"
 	"runtime"
 	"sort"
+	"strings"
 	"sync"
 )
 
@@ -26,9 +27,10 @@ type entity struct {
 }
 
 type waiter struct {
-	ent  *entity
-	site string
-	ch   chan struct{}
+	ent   *entity
+	site  string
+	ch    chan struct{}
+	wants interface{} // the gkvlite lock the goroutine is about to acquire, if any
 }
 
 type Sched struct {
@@ -52,10 +54,18 @@ type Sched struct {
 	Deadlock string
 	weights  map[string]float64
 	serial   bool
+	// model of gkvlite's mutexes (hook VerifLockHook): a goroutine that
+	// wants a held lock stays parked instead of blocking on the real
+	// mutex, and a state in which every parked goroutine waits for a held
+	// lock is a deadlock of gkvlite, not of the simulator
+	owner    map[interface{}]*entity
+	LockName func(lock interface{}) string
 }
 
+var harnessEnt = &entity{name: "(harness)"}
+
 func NewSched(rng *Rng) *Sched {
-	return &Sched{rng: rng, ents: map[uint64]*entity{}, Armed: map[string]bool{}, SiteHits: map[string]int{}, MaxSteps: 20000, weights: map[string]float64{}}
+	return &Sched{rng: rng, ents: map[uint64]*entity{}, Armed: map[string]bool{}, SiteHits: map[string]int{}, MaxSteps: 20000, weights: map[string]float64{}, owner: map[interface{}]*entity{}}
 }
 
 // goid returns the current goroutine's id.
@@ -107,26 +117,108 @@ func (s *Sched) Yield(site string) {
 		s.mu.Unlock()
 		return
 	}
-	id := goid()
+	ent := s.entLocked(goid())
+	w := &waiter{ent: ent, site: site, ch: make(chan struct{})}
+	s.waiters = append(s.waiters, w)
+	s.mu.Unlock()
+	<-w.ch
+}
+
+// entLocked returns the entity of goroutine id, creating one for a
+// goroutine started by gkvlite (iterator producer): named after the
+// entity that was released last, in order of first appearance.
+func (s *Sched) entLocked(id uint64) *entity {
 	ent := s.ents[id]
 	if ent == nil {
-		// a goroutine started by gkvlite (iterator producer): named after
-		// the entity that was released last, in order of first appearance
 		parent := s.cur
-		pname := "?"
 		if parent != nil {
-			pname = parent.name
 			parent.children++
-			ent = &entity{name: fmt.Sprintf("%s.g%d", pname, parent.children), weight: parent.weight, kind: parent.kind, wv: parent.wv}
+			ent = &entity{name: fmt.Sprintf("%s.g%d", parent.name, parent.children), weight: parent.weight, kind: parent.kind, wv: parent.wv}
 		} else {
 			ent = &entity{name: "orphan", weight: 1}
 		}
 		s.ents[id] = ent
 	}
-	w := &waiter{ent: ent, site: site, ch: make(chan struct{})}
-	s.waiters = append(s.waiters, w)
-	s.mu.Unlock()
-	<-w.ch
+	return ent
+}
+
+// Lock events of gkvlite.VerifLockHook.
+const (
+	lockWant = 0
+	lockHeld = 1
+	lockFree = 2
+)
+
+// LockEvent is gkvlite.VerifLockHook during a scheduled run.
+func (s *Sched) LockEvent(lock interface{}, ev int) {
+	if s == nil {
+		return
+	}
+	s.mu.Lock()
+	switch ev {
+	case lockHeld:
+		if s.active {
+			s.owner[lock] = s.entLocked(goid())
+		} else {
+			s.owner[lock] = harnessEnt
+		}
+		s.mu.Unlock()
+	case lockFree:
+		delete(s.owner, lock)
+		s.mu.Unlock()
+	case lockWant:
+		if !s.active {
+			s.mu.Unlock()
+			return
+		}
+		s.SiteHits["lock"]++
+		if s.owner[lock] == nil && !s.Armed["lock"] {
+			s.mu.Unlock()
+			return
+		}
+		ent := s.entLocked(goid())
+		name := "lock"
+		if s.LockName != nil {
+			name = "lock-" + s.LockName(lock)
+		}
+		if s.owner[lock] != nil {
+			s.SiteHits["lock-contended"]++
+		}
+		w := &waiter{ent: ent, site: name, ch: make(chan struct{}), wants: lock}
+		s.waiters = append(s.waiters, w)
+		s.mu.Unlock()
+		<-w.ch
+	default:
+		s.mu.Unlock()
+	}
+}
+
+// lockCycle describes who waits for whom when nothing can run.
+func (s *Sched) lockCycle() string {
+	var parts []string
+	for _, w := range s.waiters {
+		if w.wants == nil {
+			continue
+		}
+		own := s.owner[w.wants]
+		on := "?"
+		if own != nil {
+			on = own.name
+		}
+		var holds []string
+		for l, o := range s.owner {
+			if o == w.ent {
+				n := "lock"
+				if s.LockName != nil {
+					n = s.LockName(l)
+				}
+				holds = append(holds, n)
+			}
+		}
+		sort.Strings(holds)
+		parts = append(parts, fmt.Sprintf("%s waits at %s (held by %s) while holding %v", w.ent.name, w.site, on, holds))
+	}
+	return strings.Join(parts, "; ")
 }
 
 // Go starts a harness task under the scheduler.
@@ -168,6 +260,18 @@ func (s *Sched) Run() {
 			return
 		}
 		sort.SliceStable(s.waiters, func(i, j int) bool { return s.waiters[i].ent.name < s.waiters[j].ent.name })
+		// only goroutines whose wanted lock is free can run
+		var elig []int
+		for i, w := range s.waiters {
+			if w.wants == nil || s.owner[w.wants] == nil {
+				elig = append(elig, i)
+			}
+		}
+		if len(elig) == 0 {
+			s.Deadlock = "lock cycle: " + s.lockCycle()
+			s.mu.Unlock()
+			return
+		}
 		if DebugSched && s.steps < 12 {
 			var ns []string
 			for _, w := range s.waiters {
@@ -175,12 +279,12 @@ func (s *Sched) Run() {
 			}
 			fmt.Println("STEP", s.steps, "live", s.live, ns)
 		}
-		pick := 0
+		pick := elig[0]
 		switch {
 		case s.Replay != nil:
 			if ri < len(s.Replay) {
-				for i, w := range s.waiters {
-					if w.ent.name == s.Replay[ri] {
+				for _, i := range elig {
+					if s.waiters[i].ent.name == s.Replay[ri] {
 						pick = i
 						break
 					}
@@ -188,10 +292,11 @@ func (s *Sched) Run() {
 				ri++
 			}
 		case s.serial || s.steps >= s.MaxSteps:
-			pick = 0
+			pick = elig[0]
 		default:
-			ws := make([]float64, len(s.waiters))
-			for i, w := range s.waiters {
+			ws := make([]float64, len(elig))
+			for i, wi := range elig {
+				w := s.waiters[wi]
 				ws[i] = w.ent.weight
 				if ws[i] <= 0 {
 					ws[i] = 1
@@ -203,7 +308,7 @@ func (s *Sched) Run() {
 					ws[i] *= s.weights["stay"]
 				}
 			}
-			pick = s.rng.Pick(ws)
+			pick = elig[s.rng.Pick(ws)]
 		}
 		w := s.waiters[pick]
 		s.waiters = append(s.waiters[:pick], s.waiters[pick+1:]...)
